@@ -11,10 +11,32 @@ P01 = ("C01", "C06")
 
 STUBS2 = r"""
     // ASSUMED contracts (as for compile_node): compile_assign / compile_multi_assign / compile_make_map in export mode
+    // ASSUMED: assigning to a map pattern (`{a, b} = m`), as any compile_* function
     #[verifier::external_body]
-    fn compile_assign(&mut self, target: AstIndex, expression: AstIndex, export_assignment: bool, ctx: CompileNodeContext) -> (r: Result<CompileNodeOutput>)
+    fn compile_assign_to_map(&mut self, target: AstIndex, expression: AstIndex, export_assignment: bool, ctx: CompileNodeContext) -> (r: Result<CompileNodeOutput>)
         requires old(self).g@.spans.len() > 0,
-        ensures r matches Ok(out) ==> Self::sub_post(old(self), final(self), ctx.result_register, out) && (ctx.result_register is None ==> out.register is None),
+        ensures r matches Ok(out) ==> Self::sub_post(old(self), final(self), ctx.result_register, out) && (ctx.result_register is None ==> out.register is None)
+            && (ctx.result_register matches ResultRegister::Fixed(x) ==> out.register == Some(x)) && (ctx.result_register is Any ==> out.register is Some),
+    { unimplemented!() }
+    // ASSUMED: the registers of the locals an assignment target names (reserved, not yet visible); emits nothing
+    #[verifier::external_body]
+    fn local_registers_for_assign_target(&mut self, target: AstIndex, ctx: CompileNodeContext) -> (r: Result<Vec<u8>>)
+        ensures final(self).bytes == old(self).bytes, final(self).g == old(self).g, final(self).settings == old(self).settings,
+            r matches Ok(v) ==> (ctx.ast.at(target).node is Id ==> v@.len() == 1) && (ctx.ast.at(target).node is Chain || ctx.ast.at(target).node is Meta || ctx.ast.at(target).node is Ignored ==> v@.len() == 0),
+    { unimplemented!() }
+    // ASSUMED: a reserved local becomes visible; instructions that were waiting for it (a function capturing itself) are emitted
+    #[verifier::external_body]
+    fn commit_local_register(&mut self, register: u8) -> (r: Result<u8>)
+        ensures r is Ok ==> prefix(old(self).g@.trace, final(self).g@.trace) && final(self).len() >= old(self).len() && final(self).same_frame_state(old(self)) && final(self).g@.patched == old(self).g@.patched,
+    { unimplemented!() }
+    // `*meta_id` (MetaKeyId is a Copy enum; opaque here), rule R5
+    #[verifier::external_body]
+    fn meta_key_id_copy(m: &MetaKeyId) -> (r: MetaKeyId) ensures r == *m { unimplemented!() }
+    // ASSUMED: `@meta = value` in an export: appends code, nothing else
+    #[verifier::external_body]
+    fn compile_meta_export(&mut self, meta_id: MetaKeyId, name: Option<ConstantIndex>, value_register: u8) -> (r: Result<()>)
+        requires old(self).g@.spans.len() > 0,
+        ensures r is Ok ==> prefix(old(self).g@.trace, final(self).g@.trace) && final(self).len() >= old(self).len() && final(self).same_frame_state(old(self)) && final(self).g@.patched == old(self).g@.patched,
     { unimplemented!() }
     #[verifier::external_body]
     fn compile_multi_assign(&mut self, targets: &AstVec<AstIndex>, expression: AstIndex, export_assignment: bool, ctx: CompileNodeContext) -> (r: Result<CompileNodeOutput>)
@@ -29,7 +51,7 @@ STUBS2 = r"""
 """
 
 KEEP_FNS = {"none", "with_assigned", "with_temporary", "with_register", "with_any_register", "with_fixed_register", "node_with_span", "node",
-            "assign_result_register", "compile_load_non_local", "compile_constant_op", "compile_for_side_effects"}
+            "assign_result_register", "compile_load_non_local", "compile_constant_op", "compile_for_side_effects", "compile_assert_type"}
 
 def _base_items():
     out = []
@@ -74,6 +96,39 @@ UNIT = Unit(
         r matches Ok(out) ==> (ctx.result_register matches ResultRegister::Fixed(x) ==> out.register == Some(x) && !out.is_temporary),    // @result_request_is_honoured
         r is Ok ==> final(self).same_frame_state(old(self)) || final(self).g@.regs == old(self).g@.regs + 1,
         r is Ok ==> final(self).g@.patched == old(self).g@.patched && final(self).g@.spans == old(self).g@.spans && final(self).g@.loops == old(self).g@.loops,   // @frame_state_kept
+"""),
+        # ---- C01: assignment
+        Fn(F, "impl Compiler :: fn force_export_assignment", props=P01, subst=[("self.frame_stack.len() == 1", "self.at_top_level()", 1)],
+           spec="    ensures r == (self.settings.export_top_level_ids && self.top_level()),\n"),
+        Fn(F, "impl Compiler :: fn compile_assign", props=("C01", "C12", "C06"),
+           subst=[cg.ERR, ("self.compile_meta_export(*meta_id, *name, value_register)?;", "self.compile_meta_export(Self::meta_key_id_copy(meta_id), *name, value_register)?;", 1),
+                  (r"let value_result_register = match local_assign_register\.first\(\) \{\s*Some\(local\) => ResultRegister::Fixed\(\*local\),\s*None => ResultRegister::Any,\s*\};",
+                           "let value_result_register = if local_assign_register.len() > 0 { ResultRegister::Fixed(local_assign_register[0]) } else { ResultRegister::Any };", 1, "re")],
+           before=[("self.pop_span();", "assert(self.g@.spans.drop_last() =~= old(self).g@.spans);", -1)],
+           spec=r"""
+    requires old(self).g@.spans.len() > 0,
+    ensures
+        // C01: the value is evaluated FIRST - straight into the target's register when the target is a local, else into a
+        // register of its own - and only then is the target dealt with
+        r matches Ok(out) ==> (!(ctx.ast.at(target).node is Map || ctx.ast.at(target).node is MapPattern) ==> ({
+            let t = final(self).g@.trace; let n = old(self).g@.trace.len() as int;
+            t.len() >= n + 1 && prefix(old(self).g@.trace, t) && (t[n] matches Ev::Node { node, want, .. } && node == expression
+                && (ctx.ast.at(target).node is Id ==> want is Fixed) && (!(ctx.ast.at(target).node is Id) ==> want is Any)) })),                // @value_first_into_the_targets_register
+        // `x.y = v`, `x[i] = v`: the chain gets the value (no operator) and is compiled for its effect only
+        r matches Ok(out) ==> (ctx.ast.at(target).node matches Node::Chain(c) ==> ({
+            let t = final(self).g@.trace; let n = old(self).g@.trace.len() as int;
+            t.len() >= n + 2 && (t[n + 1] matches Ev::ChainAssign { chain, rhs, rhs_op, want, .. } && chain == c && rhs == Some(t[n].reg()) && rhs_op is None && want is None) })),   // @chain_target_gets_the_value
+        // the value of the assignment expression is the assigned value, where the caller wants it
+        r matches Ok(out) ==> (!(ctx.ast.at(target).node is Map || ctx.ast.at(target).node is MapPattern) ==> (ctx.result_register matches ResultRegister::Fixed(x) ==> ({
+            let t = final(self).g@.trace; let n = old(self).g@.trace.len() as int;
+            out.register == Some(x) && (x != t[n].reg() ==> t.last().is_op(Op::Copy, seq![x, t[n].reg()])) }))),                             // @assigned_value_copied_to_the_result
+        // the result-register protocol (finding F42: the temporary of the value stayed)
+        r matches Ok(out) ==> final(self).g@.regs == old(self).g@.regs + (if out.is_temporary { 1int } else { 0 }),                       // @temporaries_released
+        r matches Ok(out) ==> (out.is_temporary ==> ctx.result_register is Any),
+        r matches Ok(out) ==> (ctx.result_register is None ==> out.register is None),
+        r matches Ok(out) ==> (ctx.result_register matches ResultRegister::Fixed(x) ==> out.register == Some(x) && !out.is_temporary),    // @result_request_is_honoured
+        // C12: the target's span is pushed for the instructions that deal with it and popped again
+        r is Ok ==> final(self).g@.spans == old(self).g@.spans,                                                                           // @span_stack_balanced
 """),
         # ---- export
         Raw(STUBS2, impl_of="impl Compiler"),
